@@ -31,6 +31,8 @@ def run(rep, tier, seed):
                     nontrivial=transforms.nontrivial, key=transforms.key)
     import C18_inter
     C18_inter.streams(rep, tier, seed)
+    import C18_callsite
+    C18_callsite.streams(rep, tier, seed)
 
 
 def replay(path):
